@@ -8,12 +8,12 @@ HERE = os.path.dirname(os.path.dirname(os.path.abspath(__file__)))
 CLAIMS = {
  'C01': dict(
   technique='abstract interpretation of the token protocol and of every render method over abstract tokens, call-graph raise inventory, automata agreement of sibling regexes, ambiguity analysis of every regular expression on its position automaton, partial-operation lint that reports established failures only, bounded simulation of the delimiter stack surgery',
-  text='Decides necessary conditions of totality and termination for all bundled renderer configurations: every instantiable token class has a render handler; every render method, interpreted on abstract tokens of every class routed to it (children possibly empty), has no raising path; the simulated start->read->construct protocol of every token class has no raising path and every read() that returns a result has net-consumed a line (None: cursor restored), every explored iteration of a cursor loop advances the cursor; reachable raise statements are the documented refusals; List.start accepted implies ListItem.parse_marker matches (automata); no regular expression of the package can consume a text in two different ways inside a loop (exponential backtracking: exponential ambiguity of the position automaton, loops around loops); process_emphasis neither raises nor loops on the bounded delimiter stacks of C06; partial operations whose failure is established (tuple arity, refuted backing invariant, or a guard constant on which folding the function raises at that subscript) and loops with a back-edge path that cannot change the condition are reported - sites neither discharged nor refuted are listed as undecided. Absence of all exceptions and polynomial blow-up of the regex engine are not decided.',
+  text='Decides necessary conditions of totality and termination for all bundled renderer configurations: every instantiable token class has a render handler; every render method, interpreted on abstract tokens of every class routed to it (children possibly empty), has no raising path, and so has every helper that walks a token descendants itself, on every inline class; resolving a character reference never raises (table of reference kinds, code points that do not exist included); the simulated start->read->construct protocol of every token class has no raising path and every read() that returns a result has net-consumed a line (None: cursor restored), every explored iteration of a cursor loop advances the cursor; reachable raise statements are the documented refusals; List.start accepted implies ListItem.parse_marker matches (automata); no regular expression of the package can consume a text in two different ways inside a loop (exponential backtracking: exponential ambiguity of the position automaton, loops around loops); process_emphasis neither raises nor loops on the bounded delimiter stacks of C06; partial operations whose failure is established (tuple arity, refuted backing invariant, or a guard constant on which folding the function raises at that subscript) and loops with a back-edge path that cannot change the condition are reported - sites neither discharged nor refuted are listed as undecided. Absence of all exceptions and polynomial blow-up of the regex engine are not decided.',
   note='Trusted: CPython ast as parser; reviewed arguments in sa/audit/c01.json discharge sites but their absence is not an alarm (DESIGN.md 8.6).',
   ref='2/C01'),
  'C03': dict(
   technique='decision-table agreement of the paragraph-interruption predicates with the CommonMark table; interpretation of the container and definition readers over abstract lines with a concrete cursor (line accounting)',
-  text='Decides the clauses named in the anchors: the set of block classes that may interrupt a paragraph and the condition under which each does equal the CommonMark 0.30 table; Paragraph.read consults all of them on every continuation line under both settings of the setext switch; ListItem.read treats a line as a new item only after the interruption predicates declined it; container readers hand back trailing blank lines they drop and never a line they keep (tight/loose signal); Footnote.read hands back exactly the lines its definitions did not use; a blank line after the only block of the last item of a list does not make the list loose; a line closes a fenced code block exactly when the rule of the specification says so, and the container readers hand the nested tokenizer the content lines the specification defines (CodeFence.read, Quote.read, ListItem.read folded on one line of every class of those rules); the cursor protocol these rest on; quote marker stripping and list content offset (shared with C04). The compositional parse itself is not decided.',
+  text='Decides the clauses named in the anchors: the set of block classes that may interrupt a paragraph and the condition under which each does equal the CommonMark 0.30 table; Paragraph.read consults all of them on every continuation line under both settings of the setext switch; ListItem.read treats a line as a new item only after the interruption predicates declined it; container readers hand back trailing blank lines they drop and never a line they keep (tight/loose signal); Footnote.read hands back exactly the lines its definitions did not use; a blank line after the only block of the last item of a list does not make the list loose; a line the paragraph keeps as continuation text was put to the interruption predicates first; in the HTML written from a tree, paragraphs are bare exactly when they are direct children of a tight list item (HtmlRenderer folded on small trees); a line closes a fenced code block exactly when the rule of the specification says so, and the container readers hand the nested tokenizer the content lines the specification defines (CodeFence.read, Quote.read, ListItem.read folded on one line of every class of those rules); the cursor protocol these rest on; quote marker stripping and list content offset (shared with C04). The compositional parse itself is not decided.',
   note='Trusted: transcription of CommonMark 0.30 4.1-4.10/5.2 in sa/spec/interrupt.py.', ref='2/C03'),
  'C04': dict(
   technique='interpretation of the container readers on abstract lines: state in force at the nested tokenize_block call, provenance of buffer elements, affine marker arithmetic derived from the regex layout, line bookkeeping of the nested call',
@@ -21,15 +21,15 @@ CLAIMS = {
   note='One known finding (Quote.read disables setext recognition for nested content; by design upstream).', ref='2/C04'),
  'C05': dict(
   technique='def-before-use of class-level scratch state by path enumeration of start(); dispatch loop and cursor protocol decided by interpretation with abstract token types; hand-off buffer discipline',
-  text='Decides that no block reader can observe anything left behind by an earlier block: every scratch attribute read() loads is assigned on every accepting path of start() (optional regex groups may be None); in the interpreted dispatch loop a successful start() is followed at once by read() of the same type, nothing called in between reaches a start(), and every block is scanned from the first token type on the line at the cursor; cursor fields are touched only by FileWrapper, set_pos only with a value from get_pos of the same activation, backstep never moves before the first line; the span-level hand-off buffer is emptied before every scan and its driver calls the producer on every path; parser configuration a reader switches while it runs is restored on every path out of it. Equality of the parsed blocks as a runtime fact is not decided.',
+  text='Decides that no block reader can observe anything left behind by an earlier block: every scratch attribute read() loads is assigned on every accepting path of start() (optional regex groups may be None); in the interpreted dispatch loop a successful start() is followed at once by read() of the same type, nothing called in between reaches a start(), and every block is scanned from the first token type on the line at the cursor, and read by the type whose start() has just accepted that very line, also when the same text occurred before; cursor fields are touched only by FileWrapper, set_pos only with a value from get_pos of the same activation, backstep never moves before the first line; the span-level hand-off buffer is emptied before every scan and its driver calls the producer on every path; parser configuration a reader switches while it runs is restored on every path out of it. Equality of the parsed blocks as a runtime fact is not decided.',
   note='Trusted: audited exception Footnote.read `_index -=` (sa/audit/c05.json).', ref='2/C05'),
  'C06': dict(
   technique='abstract interpretation over finite domains (neighbour classes, lengths mod 3, affine lengths) compared with transcribed spec tables; interpretation of process_emphasis on bounded families of delimiter stacks with symbolic positions against a transcription of the specification algorithm',
-  text='Decides the table-shaped parts of the delimiter algorithm exhaustively (the four flanking predicates over all abstract neighbourhoods equal CommonMark 6.2; closed_by equals rules 9/10 over lengths mod 3 and flags, on lengths nothing rewrites; len(type)=number=end-start through remove()) and the stack surgery for bounded families: process_emphasis, interpreted on every delimiter stack of 2-3 runs, on 4-5 both-flanking runs and on 5 single-character runs (thorough: also 4 runs of length 1-2, 5-6 both-flanking, 6 single-character; 87 740 stacks), records exactly the matches (spans, kinds) of the specification procedure. Stacks outside the families, the scanner that builds the stack and links inside emphasis are not decided.',
+  text='Decides the table-shaped parts of the delimiter algorithm exhaustively (the four flanking predicates over all abstract neighbourhoods equal CommonMark 6.2; closed_by equals rules 9/10 over lengths mod 3 and flags, on lengths nothing rewrites; len(type)=number=end-start through remove()) and the stack surgery for bounded families: process_emphasis, interpreted on every delimiter stack of 2-3 runs, on 4-5 both-flanking runs and on 5 single-character runs (thorough: also 4 runs of length 1-2, 5-6 both-flanking, 6 single-character; 87 740 stacks), records exactly the matches (spans, kinds) of the specification procedure; Delimiter() over every neighbourhood records can-open / can-close as the specification defines them; and the scanner, folded end to end on 1260 texts of two delimiter runs in every neighbourhood (letters, spaces, no-break space, ASCII and Unicode punctuation, the edges), returns the emphasis matches the specification gives. Stacks and texts outside the families and links inside emphasis are not decided.',
   note='Both earlier findings (rule of three on remaining lengths; opener bound per character) were repaired in /repo f2abd12 and verified by the same simulation. Trusted: sa/spec/flanking.py and the transcription spec_emphasis in sa/rules/c06.py.', ref='2/C06'),
  'C07': dict(
   technique='call-graph reachability; interpretation of the definition writers over abstract definitions with an abstract definitions table; constant folding of the label normaliser and of the definition-to-token chain on the tables of the specification (label matching; character references; backslash escapes); decision table of match_link_image',
-  text='Decides the structural mechanisms behind reference resolution: the inline tokenizer is unreachable from any block start/read; Document.footnotes is written only from the block phase, only by setdefault or where the key was found absent, in source order, with key, destination and title of the same definition; Footnote.read hands its matches over in scan order; store and lookups use one normaliser, which - folded on one label of every class of the matching rule of the specification - case-folds (full folding, not lower-casing), strips and collapses spaces, tabs and line endings; destination and title reach Link/Image with character references (only HTML5 names and numeric references with their semicolon) and backslash escapes resolved exactly once, for references and inline links alike (writer and constructors folded on the character-reference table); definitions produce no token; match_link_image yields a reference match only if the lookup succeeded, literal text only after the shortcut lookup failed, and no shortcut when a label follows. Agreement of the scanners with the spec grammar is not decided.',
+  text='Decides the structural mechanisms behind reference resolution: the inline tokenizer is unreachable from any block start/read; Document.footnotes is written only from the block phase, only by setdefault or where the key was found absent, in source order, with key, destination and title of the same definition, and every definition is dealt with whatever became of the ones before it; Footnote.read hands its matches over in scan order; store and lookups use one normaliser, which - folded on one label of every class of the matching rule of the specification - case-folds (full folding, not lower-casing), strips and collapses spaces, tabs and line endings; destination and title reach Link/Image with character references (only HTML5 names and numeric references with their semicolon) and backslash escapes resolved exactly once, for references and inline links alike (writer and constructors folded on the character-reference table); definitions produce no token; match_link_image yields a reference match only if the lookup succeeded, literal text only after the shortcut lookup failed, and no shortcut when a label follows. Agreement of the scanners with the spec grammar is not decided.',
   note='Trusted: over-approximate call graph (name-based fallback) - sound for unreachability; the stdlib html.unescape is evaluated as the model of itself under the regex the program installs (sa/charref.py).', ref='2/C07'),
  'C08': dict(
   technique='charset-taint dataflow with per-character sanitiser images + template skeleton analysis with an HTML tokenizer state machine (abstract interpretation of every render method)',
@@ -37,11 +37,11 @@ CLAIMS = {
   note='Trusted: postconditions of html.escape and urllib.parse.quote; induction over the token tree for rendered children.', ref='2/C08'),
  'C09': dict(
   technique="reader/writer agreement on spelling attributes, label flow of each spelling attribute into the Markdown renderer's output with a trail of lossy operations, interpretation of the line assembly",
-  text='Decides the anchor "tokens retain their source spelling": every spelling attribute the Markdown renderer reads is assigned on every constructor path (and captured on every accepting path of start()), is read by its render method (helpers included) and reaches the output under every option valuation without a lossy step; without a limit, fragment text reaches the output lines unstripped; blank lines and link definitions are kept as tokens, the definition block keeps every definition in order, duplicates of a label included. Same-meaning, idempotence and exactness of the round trip are not decided.',
+  text='Decides the anchor "tokens retain their source spelling": every spelling attribute the Markdown renderer reads is assigned on every constructor path (and captured on every accepting path of start()), is read by its render method (helpers included) and reaches the output under every option valuation without a lossy step; without a limit, fragment text reaches the output lines unstripped; blank lines and link definitions are kept as tokens, the definition block keeps every definition in order, duplicates of a label included, and writes every one of them out. Same-meaning, idempotence and exactness of the round trip are not decided.',
   note='Thin claim: detects changes that drop, stop emitting or rewrite a retained spelling.', ref='2/C09'),
  'C10': dict(
   technique='interpretation of every limit-taking Markdown method with the limit symbolic and recorder stubs for the line producers (affine budgets and prefix lengths); interpretation of the wrapping loop on abstract words with an abstract limit',
-  text='Decides the arithmetic clauses of reflow: blocks that must not be re-broken never pass the limit on; each method hands its children the limit minus the length of every prefix it puts in front of their lines (or the limit itself), never the renderer-wide setting, None stays None, and the limit is never used to cut text; no value computed from the limit is tested by truthiness; in the wrapping loop an output line with more than one word was found to fit on that path and words are emitted once in order; a hard line break always separates the words around it. Meaning preservation and idempotence are not decided.',
+  text='Decides the arithmetic clauses of reflow: blocks that must not be re-broken never pass the limit on; each method hands its children the limit minus the length of every prefix it puts in front of their lines (or the limit itself), never the renderer-wide setting, None stays None, and the limit is never used to cut text; no value computed from the limit is tested by truthiness; in the wrapping loop an output line with more than one word was found to fit on that path and words are emitted once in order; a hard line break always separates the words around it; a line producer that is given no limit hands no limit on; containers only prefix the lines of their children. Meaning preservation and idempotence are not decided.',
   note='Trusted: len() algebra of string concatenation and repetition.', ref='2/C10'),
  'C11': dict(
   technique='effect inventory of all call-time writes to process-global state + typestate disciplines (restore on all paths incl. exceptional edges, rewrite at entry, def-before-use, reset-before-fill, who-may-write/call) + abstract interpretation of Renderer();__exit__',
@@ -69,7 +69,7 @@ CLAIMS = {
   note='One known finding (match after the parse group is ignored regardless of precedence).', ref='2/C16'),
  'C17': dict(
   technique='charset-taint dataflow with per-character sanitiser images + template skeleton analysis with a TeX lexer (abstract interpretation of every render method)',
-  text='For LaTeXRenderer decides that no LaTeX-special character from the document reaches a text, option, path or URL hole unescaped (the image of each special under the sanitiser chain must lex as a control sequence), that \\verb content is closed by a delimiter the path condition proves absent, that what the Math pattern passes through is a dollar-delimited span, that braces and environments balance in every template, and that a renderer attribute switched inside a method is restored on every exit. Whether the document compiles, and verbatim bodies, are not decided.',
+  text='For LaTeXRenderer decides that no LaTeX-special character from the document reaches a text, option, path or URL hole unescaped (the image of each special under the sanitiser chain must lex as a control sequence), that \\verb content is closed by a delimiter the path condition proves absent, that what the Math pattern passes through is a span closed by the delimiter that opened it ($...$ or $$...$$), that braces and environments balance in every template, and that a renderer attribute switched inside a method is restored on every exit. Whether the document compiles, and verbatim bodies, are not decided.',
   note='Two known findings (image path, listings language). Trusted: urllib.parse.quote postcondition.', ref='2/C17'),
  'C18': dict(
   technique='class-hierarchy analysis: static C3 MRO resolution of every HtmlRenderer name in each subclass, override-set and forwarding analysis, evaluated constructor state, automata check of extension-token side conditions',
@@ -77,7 +77,7 @@ CLAIMS = {
   note='Trusted: Python MRO semantics as modelled.', ref='2/C18'),
  'C19': dict(
   technique='boolean-atom truth table of the collection predicate with an abstract list of earlier entries, def-use of the collected tuple, dispatch of every heading class to the collecting method',
-  text='Decides the collection predicate, order and wiring: the condition guarding the append in render_heading equals not(omit_title and level==1) and level<=depth and no filter matches over all valuations and independently of what was collected before; a renderer built by the constructor of TocRenderer itself judges every heading of a sequence by the same options (what the constructor stores survives a use); every heading token class is dispatched to the collecting method in every TocRenderer configuration; headings are appended once in render order as (level, text stripped of tags) and consumed with the same arity; indentation is 4*(level-1-[omit_title]). Nesting of the rebuilt list is not decided.',
+  text='Decides the collection predicate, order and wiring: the condition guarding the append in render_heading equals not(omit_title and level==1) and level<=depth and no filter matches over all valuations and independently of what was collected before; a renderer built by the constructor of TocRenderer itself judges every heading of a sequence by the same options (what the constructor stores survives a use); every heading token class is dispatched to the collecting method in every TocRenderer configuration; headings are appended once in render order as (level, text stripped of tags) and consumed with the same arity; rendering a small document with repeated headings leaves one entry per qualifying heading, in order; indentation is 4*(level-1-[omit_title]). Nesting of the rebuilt list is not decided.',
   note='Thin claim.', ref='2/C19'),
 }
 
